@@ -36,7 +36,7 @@ def field_term(ch, a, b):
     return None
 
 
-def build(shape, assign, cfg, generic=False, ctx='alone', small_domain=False):
+def build(shape, assign, cfg, generic=False, ctx='alone', small_domain=False, probe=None):
     """assign[vi] = string over c/i/m/l, one char per field"""
     traits, carrier = CFGS[cfg]
     tys, fattrs, doms = [], [], []
@@ -48,7 +48,10 @@ def build(shape, assign, cfg, generic=False, ctx='alone', small_domain=False):
             salt += 1
             t.append('I' if ch in 'ix' else ('G' if generic and ch == 'c' else 'V'))
             a.append(place(field_meta(ch, carrier, salt + vi), 'Hash(ignore)', ctx))
-            d.append(['I(0)', 'I(1)'] if ch in 'ix' else (['V(0)', 'V(1)'] if small_domain else ['V(0)', 'V(1)', 'V(2)']))
+            if probe is not None and fi not in probe and ch not in 'ix':
+                d.append(['V(1)'])
+            else:
+                d.append(['I(0)', 'I(1)'] if ch in 'ix' else (['V(0)', 'V(1)'] if small_domain else ['V(0)', 'V(1)', 'V(2)']))
         tys.append(t)
         fattrs.append(a)
         doms.append(d)
@@ -96,6 +99,23 @@ def assignments_k(shape, alphabet, k):
                 yield tuple(''.join(b) for b in a)
 
 
+VERYWIDE = [S.Shape('struct', [S.Fields('t', 12)]), S.Shape('struct', [S.Fields('n', 12)]), S.Shape('enum', [S.Fields('u'), S.Fields('t', 12), S.Fields('n', 11)])]
+PROBE = (0, 1, 9, 10, 11)
+
+
+def verywide_assignments(shape, alphabet):
+    """12-field elements: the plain assignment and every single deviation at positions 0, 1, 9, 10, 11 (index arithmetic beyond one digit)"""
+    base = [[alphabet[0]] * f.n for f in shape.variants]
+    yield tuple(''.join(b) for b in base)
+    for vi, f in enumerate(shape.variants):
+        for fi in PROBE:
+            if fi < f.n:
+                for sy in alphabet[1:]:
+                    a = [list(b) for b in base]
+                    a[vi][fi] = sy
+                    yield tuple(''.join(b) for b in a)
+
+
 WIDE = [S.Shape('struct', [S.Fields('n', 5)]), S.Shape('struct', [S.Fields('t', 6)]),
         S.Shape('enum', [S.Fields('t', 1), S.Fields('u'), S.Fields('n', 5), S.Fields('t', 4), S.Fields('n', 1)]),
         S.Shape('enum', [S.Fields('u'), S.Fields('u'), S.Fields('t', 2), S.Fields('u'), S.Fields('n', 2), S.Fields('t', 1)])]
@@ -125,6 +145,14 @@ def generate(tier):
     for sh in WIDE:
         for assign in assignments_k(sh, 'cimx', 2 if tier == 'quick' else 3):
             cases.append(build(sh, assign, 'PE' if len(assign) % 2 else 'P', small_domain=True))
+    for sh in VERYWIDE:
+        for assign in verywide_assignments(sh, 'cim'):
+            cases.append(build(sh, assign, 'P', small_domain=True, probe=PROBE))
+    from .common import rawify
+    for c in [x for x in cases if x.key.startswith('C02|P|s:n2|') or x.key.startswith('C02|EP|e:n2,n1|') or x.key.startswith('C02|PE|s:n3|')]:
+        r_ = rawify(c)
+        if r_:
+            cases.append(r_)
     for sh in S.struct_shapes(2) + S.enum_shapes(2, 2):
         if not sh.positions():
             continue
